@@ -41,8 +41,8 @@ const (
 // consecutive cases that timed out it drops to 2 s until a case completes (a broken build
 // would otherwise burn 20 s per case).
 var (
-	waitTimeout     = 20 * time.Second
-	timeoutsInARow  int
+	waitTimeout    = 20 * time.Second
+	timeoutsInARow int
 )
 
 func noteOutcome(timedOut bool) {
@@ -241,23 +241,23 @@ func (sb *subscriber) sawMarker(k string) bool {
 // ---------------------------------------------------------------- simulation state
 
 type nodeSim struct {
-	idx     int
-	key     node.Key
-	addr    address.Address
-	engine  xkv.DB
-	cluster *cluster.Cluster
-	db      *kv.DB
-	h       *handlers
-	up      bool
-	issued  int64             // highest version learned from this leaseholder
-	best    map[string]opRec  // LWW over everything this node received, per key
-	have    map[string]bool   // whether best[key] exists
-	last    map[string]stored // last observed engine state, per key
-	cur     map[string]stored // model of the stored state between observations (C13 history of stored digests)
-	taint   map[string]bool   // keys excluded after a known finding
-	subs    []*subscriber
-	lostAtStop []opID // operations that were infected here when the node last stopped
-	markers []string // marker keys currently infected in the node's gossip store
+	idx        int
+	key        node.Key
+	addr       address.Address
+	engine     xkv.DB
+	cluster    *cluster.Cluster
+	db         *kv.DB
+	h          *handlers
+	up         bool
+	issued     int64             // highest version learned from this leaseholder
+	best       map[string]opRec  // LWW over everything this node received, per key
+	have       map[string]bool   // whether best[key] exists
+	last       map[string]stored // last observed engine state, per key
+	cur        map[string]stored // model of the stored state between observations (C13 history of stored digests)
+	taint      map[string]bool   // keys excluded after a known finding
+	subs       []*subscriber
+	lostAtStop []opID   // operations that were infected here when the node last stopped
+	markers    []string // marker keys currently infected in the node's gossip store
 	// C13 bookkeeping: which changes reached the node on which path
 	localChg    map[chg]int
 	rejectedChg map[chg]bool
